@@ -20,7 +20,7 @@ RULE = ("feature collections with 0..5 features, heterogeneous property sets ove
 NAMES = ["name", "crs", 'we"ird', "back\\slash", "tab\there", "ünï", "", "bbox"]
 GEOMS = [None, {"type": "Point", "coordinates": [1.5, 2]}, {"type": "LineString", "coordinates": [[0, 0], [1, 1]]},
          {"type": "Polygon", "coordinates": [[[0, 0], [1, 0], [1, 1], [0, 0]]]}]
-PROPS = {"a": [1, 2, None, 7], "b": ["x", "ä", None, 'q"r'], "c": [1.5, None, -2.25], "d": [True, False, None], "e": ["only-here", None]}
+PROPS = {"a": [1, 2, None, 7], "b": ["x", "ä", None, 'q"r', "p\u2028q", "r\ns"], "c": [1.5, None, -2.25], "d": [True, False, None], "e": ["only-here", None]}
 
 
 def gen_case(rng, tier):
@@ -33,7 +33,11 @@ def gen_case(rng, tier):
         feats.append({"type": "Feature", "properties": props, "geometry": rng.choice(GEOMS)})
     md = {}
     for nm in rng.sample(NAMES, rng.choice([0, 1, 2, 3])):
-        md[nm] = rng.choice([1, "v", None, [1, {"x": "y"}], {"type": "name", "properties": {"name": "EPSG:4326"}}, 'q"r', True])
+        # member values: any JSON value, incl. text with characters some tools treat as line breaks (U+2028 / U+2029 / U+0085,
+        # form feed, vertical tab) at any depth, and text that looks like JSON syntax
+        md[nm] = rng.choice([1, "v", None, [1, {"x": "y"}], {"type": "name", "properties": {"name": "EPSG:4326"}}, 'q"r', True,
+                             "night network.\u2028Updated weekly.", {"note": ["a\u2029b", {"deep": "x\u0085y\x0cz\x0bw"}]}, "line\nbreak\r\n  indented",
+                             '{"not": "an object"}, [', 0.5, -0.0, [], {}])
     raw = {"type": "FeatureCollection"}
     raw.update(md)
     raw["features"] = feats
